@@ -172,6 +172,30 @@ pub fn gen(tier: &str, seed: u64, out: &mut dyn FnMut(Value)) {
             out(single_test_case(op, &Lit::sq(t), &events, &mut rng, &format!("scan {}", OPS[op].0)));
         }
     }
+    // 32-bit float fields: they enter through the crate's `From<f32>` and must compare by their exact value
+    // (0.1f32 is 0.100000001490116..., above the literal 0.1 and below 0.10000001)
+    let f32s: [f32; 14] = [0.1, 0.2, 0.3, 1.0e-3, 16777217.0, 3.4028235e38, 1.0e-45, -0.1, 0.5, 1.0, 33.3, f32::NAN, f32::INFINITY, -0.0];
+    let ev32: Vec<Value> = f32s
+        .iter()
+        .map(|f| json!({"source": "s", "id": 1, "fields": [[["x"], {"f32": format!("{:08x}", f.to_bits())}]]}))
+        .collect();
+    for op in [0usize, 2, 3, 4, 5] {
+        for t in ["0.1", "0.10000000149011612", "0.10000000149", "0.2", "0.3", "0.30000001192092896", "0.001", "16777216", "16777217", "16777218",
+                  "340282346638528859811704183484516925440", "340282346638528860000000000000000000000.0", "1e-45", "1.401298464324817e-45", "-0.1", "0.5", "1", "33.3", "33.29999923706055", "0"] {
+            let r = crate::dsl::SRule {
+                name: "r".into(),
+                ops: vec![("$a".into(), crate::dsl::Operand::Test { segs: vec!["x".into()], op, lit: Lit::sq(t) })],
+                cond: Some(crate::dsl::Form::V("$a".into())),
+                ..Default::default()
+            };
+            let rules = vec![r];
+            out(json!({
+                "op": "scenario", "ext": crate::dsl::ext_tables(&[], &[], &[t.to_string()]),
+                "rules": rules.iter().map(|r| r.to_json(&mut rng)).collect::<Vec<_>>(),
+                "events": ev32, "tag": "32-bit float fields", "nt": true,
+            }));
+        }
+    }
     // the public operators of `Number` on the boundary set squared
     let mut nums: Vec<Number> = vec![];
     for i in boundary_ints() {
